@@ -74,7 +74,7 @@ TABLE = {
           ('rejected_add_edge_leaves_no_implicit_nodes', '@at_add_edge_fail Names.parse', []),
           ('mutator_defaults_in_source_are_the_modelled_ones', 'mutator_defaults', []),
           ]),
- 'C05': ('Base Digraph Names Graph GraphObs GraphInv Serial SerialProofs Closed Extracted SourceFacts SFSerialEq',
+ 'C05': ('Base Digraph Names Graph GraphObs GraphInv Serial SerialProofs Closed Extracted SourceFacts SFSerialEq JsonText CorrJsonText JsonTextProofs',
          'C05 — dictionary / JSON serialisation round-trips to a deeply equal graph.\n'
          '    TagsStable g: re-deriving the two reserved tags of a time-series node leaves its metadata unchanged (true of key-sorted\n'
          '    metadata and of metadata built by the node constructor; Inv has no clause on the shape of metadata lists).',
@@ -92,6 +92,16 @@ TABLE = {
           ('time_series_to_plain_deeply_equal', 'ts_to_cg_deep_eq_closed', []),
           ('time_series_to_plain_and_back', 'ts_to_cg_to_ts_closed', []),
           ('serialisation_defaults_in_source_are_the_modelled_ones', 'serialisation_and_equality_defaults', []),
+          ('json_text_round_trip_parse_of_print_is_identity_on_well_formed_trees', 'json_parse_print', []),
+          ('json_text_round_trip_closed_form_on_every_tree', 'json_parse_print_canon', []),
+          ('json_text_round_trip_holds_exactly_on_well_formed_trees', 'json_roundtrip_iff', []),
+          ('json_parser_accepts_every_whitespace_layout', 'json_parse_layout', []),
+          ('json_indented_output_parses_back', 'json_parse_print_indent', []),
+          ('dictionary_of_a_graph_survives_json_text', 'to_dict_text_roundtrip', []),
+          ('round_trip_through_json_text_deeply_equal_unvalidated', '@roundtrip_novalidate_through_text Names.parse Names.fmt', []),
+          ('round_trip_through_json_text_deeply_equal_validated', '(@roundtrip_through_text Names.parse Names.fmt inv_left HC)', []),
+          ('skeleton_round_trip_through_json_text', '@skeleton_roundtrip_through_text Names.parse Names.fmt', []),
+          ('json_text_merges_surrogate_pairs_refuted', 'json_parse_print_surrogate_pair_refuted', []),
           ]),
  'C08': ('Base Digraph Names Graph GraphObs GraphInv Matrix MatrixProofs Skeleton SkeletonProofs Closed TSGraph LagMatrix LagMatrixProofs Extracted SourceFacts SFMatrix',
          'C08 — matrix, networkx, GML and skeleton interchange reconstruct an equal graph.\n'
@@ -193,7 +203,7 @@ TABLE = {
           ('edge_type_spellings_in_source_are_the_modelled_ones', 'edge_type_values_exact', []),
           ('equality_defaults_in_source_are_the_modelled_ones', 'serialisation_and_equality_defaults', []),
           ]),
- 'C10': ('Base Digraph DigraphProofs Queries QueriesProofs Names Graph GraphObs GraphInv Bridge BridgeProofs Extracted SourceFacts SFTopo Serial SubGraph SubGraphProofs',
+ 'C10': ('Base Digraph DigraphProofs Queries QueriesProofs Names Graph GraphObs GraphInv Bridge BridgeProofs Extracted SourceFacts SFTopo Serial SubGraph SubGraphProofs Equality TopoSort TopoSortProofs',
          'C10 — structural queries agree with their graph-theoretic definitions.',
          [('descendants_are_directed_reachability', '@desc_spec', []),
           ('ancestors_are_directed_reachability', '@anc_spec', []),
@@ -236,6 +246,11 @@ TABLE = {
           ('nodes_between_depend_only_on_the_arc_set', '@nodes_between_same_arcs', []),
           ('directed_path_exists_depends_only_on_the_arc_set', '@directed_path_exists_same_arcs', []),
           ('states_with_the_same_views_have_the_same_arcs', '@same_view_same_arcs', []),
+          ('networkx_topological_sort_as_written_returns_a_topological_order', '@topological_sort_correct', []),
+          ('default_topological_order_is_a_linear_extension_or_the_graph_is_refused', '@get_topological_order_correct', []),
+          ('default_topological_order_on_every_graph_state', '@v_topological_order_correct', []),
+          ('default_topological_order_depends_only_on_node_order_and_adjacency_order', '@topological_sort_depends', []),
+          ('default_topological_order_of_equal_graphs_can_differ_refuted', 'equal_graphs_same_order_refuted', []),
           ]),
  'C11': ('Base Digraph DSep DSepProofs Moral MoralProofs Names Graph GraphObs GraphInv Bridge BridgeProofs Extracted SourceFacts SFSepSet',
          'C11 — d-separation answers match the graphical definition.\n'
@@ -281,7 +296,7 @@ TABLE = {
           ('time_series_node_defaults_in_source_are_the_modelled_ones', 'time_series_node_defaults', []),
           ('name_codec_functions_in_source_are_the_modelled_ones', 'name_codec_source_is_the_modelled_one', []),
           ]),
- 'C13': ('Base Digraph DigraphProofs Names Graph GraphObs GraphInv GraphInvProofs Queries QueriesProofs Bridge BridgeProofs Extracted SourceFacts SFTopo',
+ 'C13': ('Base Digraph DigraphProofs Names Graph GraphObs GraphInv GraphInvProofs Queries QueriesProofs Bridge BridgeProofs Extracted SourceFacts SFTopo Equality TopoSort TopoSortProofs',
          'C13 — time-series graphs never point a directed edge backwards in time.\n'
          '    TimeOK (field ts_time of TSInv) is part of Inv TS, hence holds in every reachable state.',
          [('every_reachable_ts_state_satisfies_invariant_incl_TimeOK', 'inv_run Names.parse Names.fmt', ['inv_run_statement']),
@@ -290,6 +305,12 @@ TABLE = {
           ('time_sorted_orders_nonempty', '@all_time_topo_nonempty', []),
           ('validated_reachable_ts_states_have_a_time_sorted_topological_order', '@reachable_time_topo_exists', []),
           ('topological_order_defaults_in_source_are_the_modelled_ones', 'topological_order_defaults', []),
+          ('networkx_lexicographical_topological_sort_as_written_is_time_sorted', '@lex_topological_sort_correct', []),
+          ('default_time_series_order_is_a_time_sorted_topological_order', '@get_time_topological_order_correct', []),
+          ('default_time_series_order_is_the_least_topological_order_for_lag_then_name', '@lex_topological_sort_least', []),
+          ('default_time_series_order_on_every_time_series_state', '@v_time_topological_order_correct', []),
+          ('default_time_series_order_after_any_validated_history', '@reachable_default_time_topo', []),
+          ('default_time_series_order_is_a_function_of_what_equality_compares', '@equal_graphs_same_time_order', []),
           ]),
  'C14': ('Base Digraph TSGraph TSGraphProofs MinimalProofs MinimalProofs2 Names Graph GraphObs GraphInv Bridge BridgeProofs',
          'C14 — the minimal graph is exactly the set of lag-invariant edge templates.\n'
